@@ -1412,6 +1412,23 @@ class Driver:
             nat = peek(w.this)
             if not self.same(t, a.py(), nat):
                 self.bad(f"member-set-mismatch:{kind}:{tkind(t)}", member=mm["qname"], set=a.desc(), native=repr(nat))
+        elif not mm["const"] and not recv.const and t["k"] == "int" and r.random() < 0.4:
+            # out-of-range assignment: OverflowError and the member keeps its value
+            lo, hi = INT_RANGE[t["c"]]
+            v = r.choice([hi + 1, lo - 1, hi + 1, lo - 1, 2 ** 70, -2 ** 70])
+            before = peek(w.this)
+            self.features.add("member:out-of-range:" + tkind(t))
+            try:
+                setattr(w, mm["name"], v)
+                self.bad(f"no-overflowerror:param={tkind(t)}", member=mm["qname"], value=v, stored=peek(w.this))
+            except (OverflowError, TypeError):
+                pass
+            except Exception as ex:
+                self.bad(f"wrong-exception:member-set:got={type(ex).__name__}", member=mm["qname"], value=v)
+            if self.pending():
+                self.bad(f"returned-with-exception-set:member-set:{tkind(t)}", member=mm["qname"], value=v)
+            if peek(w.this) != before:
+                self.bad(f"member-changed-on-error:{tkind(t)}", member=mm["qname"], value=v)
         elif not mm["const"] and r.random() < 0.3:
             # malformed assignment: TypeError / OverflowError and the member keeps its value
             before = peek(w.this)
